@@ -197,6 +197,16 @@ def do_fptcp(db, a):
     target = p["parse_packet"](pkt) if "p" in mode else pkt
     r = p["F"].fingerprint_tcp(target, syn_mss=synmss, options=opts)
     ans = mt_line(r.match, r)
+    if len(a) > 6 and a[6]:
+        # the caller edits the SAME Scapy object in place (TTL / hop limit) and asks again: the answer is the one for the
+        # packet as it is now
+        if a[1] == "4":
+            pkt.ttl = int(a[6])
+        else:
+            pkt.hlim = int(a[6])
+        target = p["parse_packet"](pkt) if "p" in mode else pkt
+        r = p["F"].fingerprint_tcp(target, syn_mss=synmss, options=opts)
+        ans = mt_line(r.match, r)
     if "r" in mode:
         r2 = p["F"].fingerprint_tcp(target, syn_mss=synmss, options=opts)
         a2 = mt_line(r2.match, r2)
